@@ -717,9 +717,19 @@ func (g *gen) specCall(e *env, n *ast.CallExpr, want string, c *Clause) T {
 		case sStr:
 			return T{S: sx("gstr.len", a.S), Sort: g.idx, Signed: true}
 		}
+		if a.GoT != nil {
+			if mt, ok := a.GoT.Underlying().(*types.Map); ok {
+				_, hc, ks, _ := g.mapComps(mt)
+				return T{S: sx(g.mapLenFn(ks), sx("select", e.comp(hc), a.S)), Sort: g.idx, Signed: true}
+			}
+		}
 		return fail("len of sort %s", a.Sort)
 	case "isnil":
 		a := arg(0, "")
+		if a.Sort == sSlice {
+			// as the code compares a slice with nil: the nil slice has region 0
+			return T{S: sx("=", sx("s.reg", a.S), "0"), Sort: sBool}
+		}
 		return T{S: sx("=", a.S, g.zeroOfSort(a.Sort, nil)), Sort: sBool}
 	case "is":
 		a := arg(0, sErr)
